@@ -13,7 +13,7 @@ import (
 func init() { Registry["C10"] = c10 }
 
 func c10(c *Ctx) {
-	c.R.Explanation = "C10: the step/termination structure and one latency precondition are decided; not the latency itself. R-step (symbolic range analysis, as C02(c)) = on the stall path of the target computation the request rises by >= 1 over the stalled request and over the old floor, and the floor is raised (offset increment). R-max = from every edge on which the stall predicate (a comparison of Fan.GetRpmAvg() with a constant) holds, every path either performs the raise or returns an exported sentinel error, and that return is reachable only across an edge establishing request >= Fan.GetMaxPwm(); UpdateFanSpeed returns the target computation's error unchanged (its handling — restore and stop — is C03 R-exit / C09 R-contain). R-lastreq = the write routine records its unmodified request in the field the stall predicate compares with (otherwise 'request unchanged' never holds for fans whose PWM map has gaps). R-threshold (data flow) = for every Fan implementation whose GetRpmAvg returns, untruncated, a float field that the RPM monitor updates with util.UpdateSimpleMovingAvg (an exponential average old + (new-old)/n), the stall predicate's constant must be > 0: for n >= 2 such an average of non-negative readings that was ever positive never becomes <= 0 (it sticks at a positive denormal), so a test against a non-positive constant cannot fire within tens of polls, or ever. Not decided: the actual number of polls; pacing."
+	c.R.Explanation = "C10: the step/termination structure and one latency precondition are decided; not the latency itself. R-step (symbolic range analysis, as C02(c)) = on the stall path of the target computation the request rises by >= 1 over the stalled request and over the old floor, and the floor is raised (offset increment). R-max = from every edge on which the stall predicate (a comparison of Fan.GetRpmAvg() with a constant) holds, every path either performs the raise or returns an exported sentinel error, and that return is reachable only across an edge establishing request >= Fan.GetMaxPwm(); UpdateFanSpeed returns the target computation's error unchanged (its handling — restore and stop — is C03 R-exit / C09 R-contain). R-lastreq = the write routine records its unmodified request in the field the stall predicate compares with (otherwise 'request unchanged' never holds for fans whose PWM map has gaps). R-poll = every path through the poll of the RPM monitor feeds a reading into the RPM average unless Fan.GetRpm itself failed (an early return on some other fault would freeze the input of the stall test). R-threshold (data flow) = for every Fan implementation whose GetRpmAvg returns, untruncated, a float field that the RPM monitor updates with util.UpdateSimpleMovingAvg (an exponential average old + (new-old)/n), the stall predicate's constant must be > 0: for n >= 2 such an average of non-negative readings that was ever positive never becomes <= 0 (it sticks at a positive denormal), so a test against a non-positive constant cannot fire within tens of polls, or ever. Not decided: the actual number of polls; pacing."
 	c.R.Assumptions = append(c.R.Assumptions, envelopeAssumptions, "RPM readings are non-negative")
 	r := c.analyseRegulation()
 	r.ruleEnvelope("R-step", false, false, true)
@@ -148,6 +148,64 @@ func c10(c *Ctx) {
 		}
 	}
 	c.R.Require("R-max", 2)
+
+	// ---- R-poll: every poll of the RPM monitor refreshes the average the stall test reads --------
+	npoll := 0
+	for _, fn := range c.P.Funcs {
+		if load_FuncPkgPath(fn) != PkgCtrl || len(fn.Blocks) == 0 {
+			continue
+		}
+		var setAvg []ssa.Instruction
+		var getRpm *ssa.Call
+		Calls(fn, func(cc ssa.CallInstruction) {
+			if isFanInvoke(cc, "SetRpmAvg") && termHasCall(r.tb.Of(cc.Common().Args[0], nil), "util.UpdateSimpleMovingAvg") {
+				setAvg = append(setAvg, cc)
+			}
+			if call, ok := cc.(*ssa.Call); ok && isFanInvoke(cc, "GetRpm") {
+				getRpm = call
+			}
+		})
+		if len(setAvg) == 0 {
+			continue
+		}
+		npoll++
+		key := c.FK(fn)
+		var errEdges []edge
+		if getRpm != nil {
+			if ev := errValueOfCall(getRpm); ev != nil {
+				errEdges = nilEdges(fn, ev, true)
+			}
+		}
+		missed := ""
+		ir.Search{StopInstr: func(ins ssa.Instruction) bool {
+			for _, s := range setAvg {
+				if ins == s {
+					return true
+				}
+			}
+			return false
+		}, StopEdge: func(b *ssa.BasicBlock, si int) bool {
+			for _, e := range errEdges {
+				if e.b == b && e.si == si {
+					return true
+				}
+			}
+			return false
+		}}.Reach([]ir.Point{{Block: fn.Blocks[0]}}, func(ins ssa.Instruction, _ *ssa.BasicBlock) {
+			if rt, ok := ins.(*ssa.Return); ok {
+				missed = c.P.Pos(rt.Pos())
+			}
+		})
+		if missed != "" {
+			c.R.Bad("R-poll", key, key, missed, "a poll of the RPM monitor can end without feeding a reading into the RPM average (and without the RPM read itself having failed): the stall test then keeps seeing the last value from before the fault, so a stalled fan is not noticed within any bound")
+		} else {
+			c.R.Ok("R-poll", key, key, c.P.Pos(fn.Pos()), "every path through the poll reaches SetRpmAvg(UpdateSimpleMovingAvg(...)) unless Fan.GetRpm itself failed")
+		}
+	}
+	if npoll == 0 {
+		c.R.Undecided("R-poll", "none", PkgCtrl, "-", "no function updates the RPM average with UpdateSimpleMovingAvg (anchor unresolved)")
+	}
+	c.R.Require("R-poll", 1)
 
 	// ---- R-threshold --------------------------------------------------------------
 	if len(preds) == 0 {
